@@ -23,6 +23,9 @@ void h_inc_aggregate(void) {
     unsigned char *aggsig, *msgs, *sigs; secp256k1_xonly_pubkey *pks; size_t n, len; int ret, wrap, big, misuse, toosmall;
     if (oneshot) __CPROVER_assume(nb == 0);
     __CPROVER_assume(alen <= 32 * (NMAX + 1));
+#ifdef C17_NBOUND
+    __CPROVER_assume(nb <= C17_NBOUND && nnew <= C17_NBOUND - nb);   /* BOUNDED stand-in: loops unwound instead of closed by loop contracts */
+#endif
     n = nb + nnew; wrap = n < nb; big = (nb > NMAX || nnew > NMAX);   /* big: the length can never suffice, the arrays must not be touched */
     INPUT_BUF(aggw, aggsig, alen, 96);
     pks = malloc((big || n == 0) ? 1 : n * sizeof(*pks)); msgs = malloc((big || n == 0) ? 1 : n * 32); sigs = malloc((big || nnew == 0) ? 1 : nnew * 64);
@@ -46,9 +49,17 @@ void h_inc_aggregate(void) {
     __CPROVER_assert(g_error == 0, "C17 inc_aggregate: error callback never invoked");
     if (wrap) __CPROVER_assert(ret == 0 && g_illegal == 1, "C17 inc_aggregate: n_before + n_new overflow reports illegal use and returns 0");
     misuse = !use_agg || !use_len || (!use_sigs && nnew != 0) || wrap || (!use_pk && n != 0) || (!use_msgs && n != 0);
-    if (misuse) { __CPROVER_assert(ret == 0 && g_illegal == 1 && len == alen && verif_c17_fin_n == 0 && verif_c17_whit == 0 && c17_init_n == 0, "C17 inc_aggregate: API misuse reports illegal use, returns 0, aggregates nothing"); if (wrap) REACH("inc_aggregate count overflow"); REACH("inc_aggregate API misuse"); return; }
+    if (misuse) { __CPROVER_assert(ret == 0 && g_illegal == 1 && len == alen && verif_c17_fin_n == 0 && verif_c17_whit == 0 && c17_init_n == 0, "C17 inc_aggregate: API misuse reports illegal use, returns 0, aggregates nothing"); 
+#ifndef C17_NBOUND
+        if (wrap) REACH("inc_aggregate count overflow");
+#endif
+        REACH("inc_aggregate API misuse"); return; }
     if (toosmall) { __CPROVER_assert(ret == 0 && g_illegal == 0 && len == alen && verif_c17_whit == 0 && c17_init_n == 0, "C17 inc_aggregate: buffer smaller than 32*(n+1) returns 0 and touches nothing");
-        if (alen == 32 * n && n > 2) REACH("inc_aggregate buffer one slot short"); if (big) REACH("inc_aggregate huge count"); return; }
+        if (alen == 32 * n && n > 2) REACH("inc_aggregate buffer one slot short");
+#ifndef C17_NBOUND
+        if (big) REACH("inc_aggregate huge count");
+#endif
+        return; }
     if (ret == 1) {
         __CPROVER_assert(g_illegal == 0, "C17 inc_aggregate: success without callback");
         __CPROVER_assert(W(len) == 32 * (W(n) + 1), "C17 inc_aggregate: *aggsig_len = 32*(n+1) on success");
@@ -57,10 +68,15 @@ void h_inc_aggregate(void) {
         if (wpos >= 64 && wpos < 64 + 96 * (uint64_t)n) __CPROVER_assert(verif_c17_whit, "C17 inc_aggregate: every position of r_i || pk_i || m_i, i < n, is written to the running hash");
         if (nb == 0 && nnew == 0) REACH("inc_aggregate empty");
         if (nb == 0 && nnew == 3 && gb == 40) REACH("aggregate one-shot n = 3");
+#ifndef C17_NBOUND
         if (nb == 1000 && nnew == 1000000 && gb == 32 * 1000 + 31 && wpos == 64 + 96 * 1000 + 3 && alen == 32 * (NMAX + 1)) REACH("inc_aggregate 1000 + 10^6, oversized buffer");
         if (nb == 5 && nnew == 0 && gb == 159) REACH("inc_aggregate nothing new");
+#else
+        if (nb == 1 && nnew == 2 && gb == 32 + 31 && wpos == 64 + 96 + 3 && alen == 32 * (NMAX + 1)) REACH("inc_aggregate 1 + 2, oversized buffer");
+        if (nb == 2 && nnew == 0 && gb == 63) REACH("inc_aggregate nothing new");
+#endif
     } else {
         __CPROVER_assert(g_illegal == 1, "C17 inc_aggregate: well-formed call with enough room fails only on an invalid public key object (illegal callback)");
-        if (n > 3) REACH("inc_aggregate invalid key object");
+        if (n > 1) REACH("inc_aggregate invalid key object");
     }
 }
